@@ -146,6 +146,8 @@ def plan(tier, seed):
     threads = (1, 2, 3, 4) if tier == "quick" else (1, 2, 3, 4, 8, 16, 32)
     for ci in range(8):
         shards.append(("seq", orders[ci::8], sizes, TOLS, threads))
+    for oi in range(6 if tier == "quick" else 12):
+        shards.append(("many", oi, tier))
     for ci in range(16):
         shards.append(("hist", ci, 16))
     for gi in range(8 if tier == "quick" else 32):
@@ -212,6 +214,52 @@ def _run_seq(desc):
                 case = {"kind": "seq", "order": list(order), "npeaks": n, "tol": tol, "seed": seed_of()}
                 run_seq_case(sh, cI, indexing, U, order, gv, tol, threads if n > 4096 else threads[:2], case)
         sh.sample(case, limit=1)
+    return sh
+
+
+def many_grains(seed):
+    """50 UBIs: the four base grains, 36 near-duplicates of them (misoriented by 0.03 .. 0.4 degrees about nine axes: they compete for
+    the same peaks inside the tolerance) and 10 unrelated orientations"""
+    U = grains(seed)
+    out = [u for u in U]
+    axes = [(1, 0, 0), (0, 1, 0), (0, 0, 1), (1, 1, 0), (1, -1, 1), (2, 1, 3), (-1, 2, 0), (3, -2, 1), (1, 1, 1)]
+    k = 0
+    for g in range(4):
+        for q in range(9):
+            ang = (0.03, 0.07, 0.11, 0.17, 0.23, 0.29, 0.33, 0.37, 0.4)[(q + g) % 9]
+            out.append(np.dot(U[g], O.rotation_from_axis_angle(axes[q], ang).T))
+            k += 1
+    for q in range(10):
+        out.append(np.dot(U[q % 4], O.rotation_from_axis_angle(axes[q % 9], 17.0 + 9.0 * q).T))
+    return [np.ascontiguousarray(u) for u in out]
+
+
+def many_orders(n):
+    base = list(range(n))
+    outs = [base, base[::-1]]
+    for r in (7, 13, 31):
+        outs.append(base[r:] + base[:r])
+    outs.append(base[::2] + base[1::2])
+    outs.append(base[1::2][::-1] + base[::2])
+    for stride in (3, 7, 11, 17, 23):
+        outs.append([(i * stride + 5) % n for i in range(n)])
+    return outs
+
+
+def _run_many(desc):
+    _, oi, tier = desc
+    from ImageD11 import cImageD11 as cI, indexing
+    indexing.loglevel = 3
+    sh = Shard()
+    U = many_grains(seed_of())
+    pool = peak_pool(U[:4])
+    order = many_orders(len(U))[oi]
+    for n in ((8193,) if tier == "quick" else (8193, 20000)):
+        gv = peak_list(pool, n, shift=11)
+        for tol in ((0.1,) if tier == "quick" else (0.05, 0.1)):
+            case = {"kind": "many", "order_index": oi, "npeaks": n, "tol": tol, "seed": seed_of(), "ngrains": len(U)}
+            run_seq_case(sh, cI, indexing, U, tuple(order), gv, tol, (1, 2) if tier == "quick" else (1, 4, 16), case)
+    sh.sample(case, limit=1)
     return sh
 
 
@@ -439,6 +487,8 @@ def run_shard(desc):
         return _run_seq(desc)
     if desc[0] == "hist":
         return _run_hist(desc)
+    if desc[0] == "many":
+        return _run_many(desc)
     if desc[0] == "assignlabels":
         return _run_assignlabels(desc)
     return _run_sched(desc)
@@ -453,6 +503,9 @@ def replay(case):
         gi = [g_ for g_ in range(32) if (g_ * 5) % 128 == case["geometry"]][0]
         r = _run_assignlabels(("assignlabels", gi, "quick"))
         sh.violations = [v for v in r.violations if v["case"]["order"] == case["order"] and v["case"]["tol"] == case["tol"]]
+    elif case["kind"] == "many":
+        r = _run_many(("many", case["order_index"], "thorough"))
+        sh.violations = [v for v in r.violations if v["case"]["npeaks"] == case["npeaks"] and v["case"]["tol"] == case["tol"]]
     elif case["kind"] == "hist":
         r = _run_hist(("hist", 0, 1))
         sh.violations = [v for v in r.violations if v["case"]["first"] == case["first"] and v["case"]["second"] == case["second"]]
